@@ -350,7 +350,8 @@ def run(chk, replay=None):
     chk.cov["exhaustive"] = not replay
     chk.cov["rule"] = (
         "executions = (a) every server script of SaslExchange up to the all-paths depth (challenge/success/failure/continue with "
-        "honest, wrong-nonce, bad-parameter, wrong-signature, missing-field payloads; success at every step; extra elements after the "
+        "honest, wrong-nonce, bad-parameter, wrong-signature, missing-field payloads; success at every step carrying any payload of the "
+        "mechanism's term universe (server-first, challenge, proof, empty, garbage, nothing); extra elements after the "
         "end), each on a concrete mechanism (4 SCRAM hashes, DIGEST-MD5, PLAIN, 7 HT hashes round-robin), SASL 1 and SASL 2; (b) honest "
         "exchanges over a fixed edge set of credentials; (c) honest exchanges over seeded random user names / passwords (printable "
         "Unicode, NFKC-stable), salts, iteration counts and nonces. The client nonce is forced through QXmppSaslDigestMd5::setNonce. "
